@@ -40,6 +40,8 @@ pub mod timing;
 pub mod trace_categories;
 pub mod traps;
 pub mod variables;
+#[cfg(feature = "verif-hooks")]
+mod verif_pause;
 mod wellknownvars;
 
 /// Re-export parser types used in core definitions.
